@@ -8,22 +8,26 @@
    error - never Panic, never OutOfFuel - and re-establishes the invariant on the same buffer.  This covers the
    only panic the pinned tree had (zero-bit read, fixed by 1966540: [GetBitString] with numBits = 0 returns []).
 
+   Proved for all inputs as well (Proofs/AperTotalPrim.v, AperTotalField.v, AperTotalNgap.v):
+     - parseOctetString / parseBitString (fixed size, constrained, unconstrained and fragmented forms) and the
+       open-type fragment loop: value or error, cursor invariant kept, cursor never moves backwards, the fuel
+       S (length bytes) of the fragment loops is never exhausted (each further fragment costs >= 8 bits);
+     - parseField / parseSequenceOf / parseOpenType / struct and CHOICE decoding by induction on the fuel, for every
+       type satisfying the decidable condition wf_ty (SIZE lower bounds in 0..2^32-1, CHOICE structs start with an
+       int, open-type reference fields are INTEGER wrappers): never Panic with any fuel, never OutOfFuel with
+       fuel >= ty_depth t;
+     - wf_ty holds of every root of the regenerated NGAP schema (vm_compute), hence [c14_decode_total].
+   Hypotheses on the input: every element of the byte string is an octet (< 256) and len < 2^32.
+
    TODO-PARTIAL (stated in full):
-     decode_total :
-       forall root t pe pd bs, In (root, t, pe, pd) ngap_roots_full -> len bs < 2^32 ->
-         exists r, unmarshal (dec_fuel t) t pd bs = r /\ quiet r
      decode_alloc_bounded :
        forall ..., unmarshal_alloc (dec_fuel t) t pd bs <= depth * 65535 * maxelem + 8 * len bs * maxelem
-     Missing: parseOctetString / parseBitString (the fragment loops: fuel S (length bytes) suffices because every
-     repeat iteration consumes at least 2048 octets; slices are guarded by the explicit length tests), then
-     parseField by induction on fuel (decStruct / dec_seq_loop / decSequenceOf / parseOpenType; get_ref on the
-     partially built value needs the schema well-formedness facts: reference fields are INTEGER wrappers, every
-     CHOICE struct has at least the Present field), fuel sufficiency from ty_depth (root_depth_bound: 30), and the
-     allocation accounting.  On every check the streams ngap-malformed and prim-malformed run the real decoder and the
+     On every check the streams ngap-malformed and prim-malformed run the real decoder and the
      model on every prefix, bit/byte corruptions, splices and random octets: same value | same error code, no panic,
      allocation and time within the limits. *)
 From Coq Require Import NArith ZArith List Bool String.
 Require Import GoSlice AperCommon AperEnc AperDec NgapSchema AperCheck AperSchemaProofs AperDecProofs.
+Require Import AperTotalPrim AperTotalField AperTotalNgap.
 Import ListNotations.
 Open Scope N_scope.
 
@@ -79,6 +83,65 @@ Theorem c14_parseInteger_total : forall s ext lb ub, dinv s -> good3 s (parseInt
 Proof. exact parseInteger_good. Qed.
 Print Assumptions c14_parseInteger_total.
 
+(* OCTET STRING / BIT STRING in all their forms: value or error, invariant kept, cursor not moved backwards.
+   [size_ok]: the SIZE bounds are int64 tag values with 0 <= lb < 2^32 (see c14_negative_lb_panics for why). *)
+Theorem c14_parseOctetString_total :
+  forall s ext lbp ubp, dinv s -> octs s -> size_ok lbp ubp -> sgood s anyres (parseOctetString s ext lbp ubp).
+Proof. exact parseOctetString_good. Qed.
+Print Assumptions c14_parseOctetString_total.
+
+Theorem c14_parseBitString_total :
+  forall s ext lbp ubp, dinv s -> octs s -> size_ok lbp ubp -> sgood s anyres (parseBitString s ext lbp ubp).
+Proof. exact parseBitString_good. Qed.
+Print Assumptions c14_parseBitString_total.
+
+(* the open-type fragment loop with the fuel parseOpenType gives it: the collected octets were all passed over *)
+Theorem c14_open_type_loop_total :
+  forall fuel s acc, dinv s -> octs s -> octets acc -> 8 * len (d_bytes s) < 8 * N.of_nat fuel + pos s ->
+    sgood s (open_post s acc) (open_dec_loop fuel s acc).
+Proof. exact open_dec_loop_good. Qed.
+Print Assumptions c14_open_type_loop_total.
+
+(* parseField on any well-formed type, any fuel: never a panic; out of fuel only below the nesting depth;
+   a returned value is well-typed and the cursor is inside the buffer and not before where it started *)
+Theorem c14_parseField_total :
+  forall fuel t p s, wf_ty t (psize_ok p) = true -> dinv s -> octs s ->
+    match fst (parseField fuel t p s) with
+    | Ok (v, s') => adv s s' /\ has_ty t v
+    | Err _ => True
+    | Panic _ => False
+    | OutOfFuel => (fuel < ty_depth t)%nat
+    end.
+Proof. exact parseField_total. Qed.
+Print Assumptions c14_parseField_total.
+
+Theorem c14_unmarshal_never_panics :
+  forall fuel t p bs, wf_ty t (psize_ok p) = true -> Forall (fun b => b < 256) bs -> len bs < 4294967296 ->
+    forall q, unmarshal fuel t p bs <> Panic q.
+Proof. exact unmarshal_never_panics. Qed.
+Print Assumptions c14_unmarshal_never_panics.
+
+Theorem c14_unmarshal_total :
+  forall fuel t p bs, wf_ty t (psize_ok p) = true -> (ty_depth t <= fuel)%nat ->
+    Forall (fun b => b < 256) bs -> len bs < 4294967296 ->
+    match unmarshal fuel t p bs with Ok _ | Err _ => True | Panic _ | OutOfFuel => False end.
+Proof. exact unmarshal_total. Qed.
+Print Assumptions c14_unmarshal_total.
+
+(* every root of the regenerated schema is well-formed (evaluated) ... *)
+Theorem c14_ngap_roots_wf :
+  forallb (fun r => let '(_, t, pe, pd) := r in wf_ty t (psize_ok pd) && wf_ty t (psize_ok pe)) ngap_roots_full = true.
+Proof. exact ngap_roots_wf. Qed.
+Print Assumptions c14_ngap_roots_wf.
+
+(* ... hence: NGAP decoding of EVERY octet string against EVERY root is a value or an error *)
+Theorem c14_decode_total :
+  forall root t pe pd bs, In (root, t, pe, pd) ngap_roots_full ->
+    Forall (fun b => b < 256) bs -> len bs < 4294967296 ->
+    match unmarshal (dec_fuel t) t pd bs with Ok _ | Err _ => True | Panic _ | OutOfFuel => False end.
+Proof. exact ngap_decode_total. Qed.
+Print Assumptions c14_decode_total.
+
 (* constants of the schema used by the bounds *)
 Theorem c14_root_depth_bound : forallb (fun r => let '(_, t, _, _) := r in Nat.leb (ty_depth t) max_root_depth) ngap_roots_full = true.
 Proof. exact root_depth_bound. Qed.
@@ -96,3 +159,14 @@ Example c14_historic_input_no_panic :
           [0;14;0;18;0;0;1;0;110;0;11;32;0;3;163;82;148;64;1;16;3;232] with
   | Ok _ | Err _ => True | _ => False end.
 Proof. vm_compute. exact I. Qed.
+
+(* the hypotheses are satisfiable / needed *)
+Example c14_root_in_schema : In ("NGAPPDU"%string, root_ty "NGAPPDU", root_penc "NGAPPDU", root_pdec "NGAPPDU") ngap_roots_full.
+Proof. left. reflexivity. Qed.
+Example c14_octs_example : octs (mkdst [0; 14; 0; 18] 0 0).
+Proof. unfold octs, octets, octet. cbn. repeat constructor. Qed.
+Example c14_size_ok_example : size_ok (Some 1%Z) (Some 150%Z).
+Proof. unfold size_ok. split; split; reflexivity || discriminate. Qed.
+(* a (non-NGAP) tag with a negative SIZE lower bound does make the library slice out of range: pd.bytes[1:0] *)
+Example c14_negative_lb_panics : fst (parseOctetString (mkdst [0] 0 0) false (Some (-1)%Z) None) = Panic P_SLICE.
+Proof. vm_compute. reflexivity. Qed.
